@@ -1147,7 +1147,13 @@ class ServerSSM(SSM):
         if self.segmentRetryCount < self.numberOfApduRetries:
             self.segmentRetryCount += 1
             self.start_timer(self.segmentTimeout)
-            self.fill_window(self.initialSequenceNumber)
+
+            # until the first segment has been acknowledged the window size
+            # is not known, send the first segment again
+            if self.initialSequenceNumber == 0:
+                self.response(self.get_segment(0))
+            else:
+                self.fill_window(self.initialSequenceNumber)
         else:
             # give up
             self.set_state(ABORTED)
